@@ -288,16 +288,25 @@ def _is_num(v):
 # dense matrices of the representations
 
 
+def pipe_index_map(leg):
+    """(number of base states, array m) with m[k] = index inside `leg` of the k-th product state of the
+    base (non-pipe) legs in C order; pipes of pipes (grouped sites) are resolved recursively"""
+    if not hasattr(leg, 'legs'):
+        return leg.ind_len, np.arange(leg.ind_len)
+    subs = [pipe_index_map(l) for l in leg.legs]
+    sizes = [n for n, _ in subs]
+    total = int(np.prod(sizes))
+    res = np.empty(total, dtype=np.intp)
+    for k, idx in enumerate(itertools.product(*[range(n) for n in sizes])):
+        res[k] = leg.map_incoming_flat([int(m[i]) for (_, m), i in zip(subs, idx)])
+    return total, res
+
+
 def ed_dense(ed):
     """full_H of an ExactDiag as ndarray in the Kronecker basis of the (ungrouped) sites' internal bases"""
-    H = ed.full_H.split_legs()       # one leg per (possibly grouped) site: 'p0', …, 'p0*', …
-    L = H.rank // 2
-    H = H.transpose(['p%d' % i for i in range(L)] + ['p%d*' % i for i in range(L)])
-    while any(hasattr(l, 'legs') for l in H.legs):  # grouped sites: pipes over the original legs
-        H = H.split_legs()
-    arr = H.to_ndarray()
-    d = int(np.prod(arr.shape[:arr.ndim // 2]))
-    return arr.reshape(d, d)
+    arr = ed.full_H.to_ndarray()
+    _, m = pipe_index_map(ed._pipe)
+    return arr[np.ix_(m, m)]
 
 
 def grouped_dense(M, n):
@@ -307,15 +316,7 @@ def grouped_dense(M, n):
     M2.group_sites(n)
     ed = ExactDiag(M2)
     ed.build_full_H_from_mpo()
-    H = ed.full_H.split_legs()  # -> one leg per grouped site
-    L = M2.lat.N_sites
-    H = H.transpose(['p%d' % i for i in range(L)] + ['p%d*' % i for i in range(L)])
-    # every grouped leg is a pipe over the original legs; split again
-    H = H.split_legs()
-    arr = H.to_ndarray()
-    k = arr.ndim // 2
-    d = int(np.prod(arr.shape[:k]))
-    return arr.reshape(d, d), M2
+    return ed_dense(ed), M2
 
 
 def representations(M, case, want=None):
@@ -345,21 +346,27 @@ def representations(M, case, want=None):
         return ed_dense(ed)
 
     L = M.lat.N_sites
+    D = int(np.prod([s.dim for s in M.lat.mps_sites()]))
     attempt('mpo', lambda: from_mpo(M))
-    attempt('numpy', lambda: get_numpy_Hamiltonian(M, undo_sort_charge=False))
-    attempt('sparse', lambda: get_scipy_sparse_Hamiltonian(M, undo_sort_charge=False).toarray())
+    # the from-couplings exporters build arrays of the wrong (huge) size for centred terms: only small systems
+    exporters_ok = not (any(c['f'] == 'add_centered' for c in case.get('calls', [])) and D > 64)
+    if exporters_ok:
+        attempt('numpy', lambda: get_numpy_Hamiltonian(M, undo_sort_charge=False))
+        attempt('sparse', lambda: get_scipy_sparse_Hamiltonian(M, undo_sort_charge=False).toarray())
 
     def undo():
         H = get_numpy_Hamiltonian(M, undo_sort_charge=True)
         perm = kron_perm([s.perm for s in M.lat.mps_sites()])
         # H_undo[a, b] = H_int[P a, P b] with P the inverse permutation per site
         return H[np.ix_(perm, perm)]
-    attempt('numpy_undo', undo)
+    if exporters_ok:
+        attempt('numpy_undo', undo)
 
     def mpomodel_numpy():
         MM = MPOModel(M.lat, M.H_MPO)
         return get_numpy_Hamiltonian(MM, undo_sort_charge=False)
-    attempt('mpomodel_numpy', mpomodel_numpy)
+    if D <= 128:  # the implementation's own split_legs/to_ndarray path is slow for many small blocks
+        attempt('mpomodel_numpy', mpomodel_numpy)
 
     if L >= 2:
         H_bond = None
@@ -398,7 +405,7 @@ def representations(M, case, want=None):
 def mpo_window_dense(H, n_sites):
     """dense operator of the terms of an (infinite) MPO lying completely inside sites 0 … n_sites-1:
     contraction of W[0][IdL, :] … W[n-1][:, IdR] (own contraction, no extract_segment); grouped sites are
-    split back into the original ones"""
+    resolved into the original ones"""
     import tenpy.linalg.np_conserved as npc
     full = H.get_W(0).take_slice(H.get_IdL(0), 'wL').replace_labels(['p', 'p*'], ['p0', 'p0*'])
     for i in range(1, n_sites):
@@ -407,12 +414,12 @@ def mpo_window_dense(H, n_sites):
     full = full.take_slice(H.get_IdR(n_sites - 1), 'wR')
     if H.explicit_plus_hc:
         full = full + full.conj().itranspose(full.get_leg_labels())
-    full = full.transpose(['p%d' % i for i in range(n_sites)] + ['p%d*' % i for i in range(n_sites)])
-    while any(hasattr(l, 'legs') for l in full.legs):
-        full = full.split_legs()
+    ps = ['p%d' % i for i in range(n_sites)]
+    pipe = npc.LegPipe([full.get_leg(p) for p in ps], qconj=1)
+    full = full.combine_legs([ps, [p + '*' for p in ps]], new_axes=[0, 1], pipes=[pipe, pipe.conj()])
     arr = full.to_ndarray()
-    d = int(np.prod(arr.shape[:arr.ndim // 2]))
-    return arr.reshape(d, d)
+    _, m = pipe_index_map(pipe)
+    return arr[np.ix_(m, m)]
 
 
 def kron_perm(perms):
